@@ -5,6 +5,8 @@ coq/Props/C01.v are laws OF THE REFERENCE (they make it trustworthy as "what SQL
 tied to the reference only by differential execution of generated queries: harness/h_core/src/bin/c01.rs renders
 one query AST twice (SQL text for SessionContext::sql, JSON for this file), and `c01_check` (Coq, vm_compute)
 compares the engine's rows with the reference's as a bag / as a key-ordered sequence / as a valid top-k.
+The harness first runs a fixed witness corpus (ids 1000000.., one query per finding listed in known_findings.json for C01),
+so every listed finding is exercised on every run whatever the seed.
 
 Reusable interface (other properties: `from props.C01 import r_query, r_expr, r_value, r_rel, r_db, r_obs, r_case`):
   r_value(v)   JSON scalar (null / int / bool / str / {"f": float}) -> Coq `value`
@@ -521,6 +523,17 @@ def run(pid, tier, seed, replay):
         else:
             n_dis += 1
         ck.fail_input(what, brief(c), key=key)
+    # fixed witness corpus (harness ids >= 1000000, one query per listed finding): which finding did each one hit?
+    witness = {}
+    pos = {i: j for j, i in enumerate(dis)}
+    for i, c in enumerate(todo):
+        if c["stream"].startswith("witness:"):
+            j = pos.get(i)
+            witness[c["stream"][8:]] = ("agrees with the reference (finding no longer reproduces)" if j is None
+                                        else (explained.get(j) or "UNEXPLAINED disagreement")[:7])
+    for name, hit in sorted(witness.items()):
+        if hit != "C01-" + name:
+            ck.notes.append("witness query for C01-%s: %s" % (name, hit))
     ref_err = len([i for i in agree_bad if i not in set(bad) and i not in wf_bad])
     compared = [c for i, c in enumerate(todo) if i not in agree_bad]
     ck.log("reference (Coq): %d cases, %d agree, %d disagree, %d reference run-time errors (not compared), %d unsupported by the engine (%.1fs)"
@@ -558,6 +571,7 @@ def run(pid, tier, seed, replay):
         "engine_unsupported_messages": unsupported_msgs,
         "disagreements": n_dis,
         "disagreements_explained_by_known_findings": n_known,
+        "witness_corpus": witness,
         "traces_validated_against_impl": len(compared),
         "samples": [{"sql": c["sql"], "tables": [t["rows"] for t in c["tables"]], "engine": c["out"]} for c in compared[:2]],
         "trusted_base": vlib.TRUSTED_COMMON + [
